@@ -8,6 +8,19 @@ From Coq Require Import List NArith ZArith Bool.
 Import ListNotations.
 From LV Require Import Model.Base Model.Template.
 
+(** ** Failure causes *)
+Inductive cause :=
+| CKey (k : key)      (* KeyNotFoundError(key) *)
+| CSwitch             (* SwitchError *)
+| CCase               (* CaseWhenError *)
+| CDomain             (* ValueError from Option._enforce_domain *)
+| CUser (n : N)       (* exception raised by user code *)
+| CType               (* TypeError (scalar parent, not callable, not iterable) *)
+| CInsuff             (* InsufficientInformationError *)
+| CFuel               (* RecursionError *)
+| CUnmodelled.        (* behaviour outside the modelled universe *)
+
+
 (** ** Values *)
 Inductive value :=
 | VJ (j : json)                              (* a JSON value (from options or a constant) *)
@@ -15,7 +28,10 @@ Inductive value :=
                                                 tags for iterables / list / tuple / dict / pair *)
 | VF (f : N) (pre post : list value)         (* callable: function atom with captured positional
                                                 ([pre]) and keyword ([post]) arguments *)
-| VMissing.                                  (* labrea._missing.MISSING *)
+| VMissing                                   (* labrea._missing.MISSING *)
+| VErr (c : cause).                          (* inside a lazily evaluated iterable (Iter / Map return
+                                                generators): the element whose evaluation fails when
+                                                the iterable is consumed; never a result by itself *)
 
 Definition T_ITER : N := 1.  Definition T_LIST : N := 2.  Definition T_TUPLE : N := 3.
 Definition T_DICT : N := 4.  Definition T_PAIR : N := 5.
@@ -60,23 +76,12 @@ Definition truthy (v : value) : bool :=
   | VJ (JStr []) => false
   | VJ (JList []) => false
   | VJ (JObj []) => false
-  | VT _ [] => false
+  | VT t [] => N.eqb t T_ITER      (* a generator object is always truthy *)
   | VMissing => true
   | _ => true
   end.
 
 (** ** Results *)
-Inductive cause :=
-| CKey (k : key)      (* KeyNotFoundError(key) *)
-| CSwitch             (* SwitchError *)
-| CCase               (* CaseWhenError *)
-| CDomain             (* ValueError from Option._enforce_domain *)
-| CUser (n : N)       (* exception raised by user code *)
-| CType               (* TypeError (scalar parent, not callable, not iterable) *)
-| CInsuff             (* InsufficientInformationError *)
-| CFuel               (* RecursionError *)
-| CUnmodelled.        (* behaviour outside the modelled universe *)
-
 (** [ee]: is the exception an instance of EvaluationError (decides which handlers catch it) *)
 Inductive res (A : Type) :=
 | Ok (a : A)
@@ -95,7 +100,13 @@ Inductive event :=
 | EvLogEmit                             (* … and emitted by the logging handler *)
 | EvCacheExists (c : N) (hit : bool)
 | EvCacheGet (c : N) (hit : bool)
-| EvCacheSet (c : N).
+| EvCacheSet (c : N)
+| EvLazyStored (c : N)                  (* GHOST: a value holding a generator (Iter/Map result) was
+                                           stored: the cache keeps the generator OBJECT, which the
+                                           first consumer exhausts (finding D21) *)
+| EvDirty (c : N).                      (* GHOST: a cache site was used under a dictionary for which
+                                           the cached expression's reads are not all reported by
+                                           keys() (the side condition of C01; see [site_ok]) *)
 
 (** ** Expressions: one constructor per class that has its own four methods. *)
 Inductive cache_ref := CMem (c : N) | CNone.     (* MemoryCache object id | NoCache *)
@@ -165,6 +176,8 @@ Section Interp.
   Variable cfg : config.
   Variable ucall : N -> list value -> cres.       (* user code: deterministic, may raise *)
   Variable rfuel : nat.                           (* depth budget of template resolution *)
+  Variable site_ok : expr -> dict -> bool.        (* GHOST oracle consulted at cache sites; it only
+                                                     decides whether an [EvDirty] event is logged *)
 
   (** state + writer (events in order of occurrence) + exceptions *)
   Definition M (A : Type) : Type := S -> (res A * S * list event).
@@ -180,6 +193,8 @@ Section Interp.
   Definition catch {A} (m : M A) (h : cause -> bool -> M A) : M A :=
     fun s => match m s with
              | (Ok a, s', l) => (Ok a, s', l)
+             | (Err CUnmodelled ee, s', l) => (Err CUnmodelled ee, s', l)   (* never handled: the whole
+                                                    observation is outside the modelled universe *)
              | (Err c ee, s', l) => match h c ee s' with (r, s'', l') => (r, s'', l ++ l') end
              end.
   (** what the [EvaluateRequest] default handler does to an exception leaving a node's
@@ -219,6 +234,69 @@ Section Interp.
     | _ => None
     end.
 
+  Definition is_some {A} (x : option A) : bool := match x with Some _ => true | None => false end.
+
+  (** consuming an iterable: a deferred element failure is raised (it went through the
+      element's own evaluate request, so it is an EvaluationError) *)
+  Fixpoint first_err (l : list value) : option cause :=
+    match l with
+    | [] => None
+    | VErr c :: _ => Some c
+    | _ :: l' => first_err l'
+    end.
+  Definition force_elems (v : value) : M (list value) :=
+    match elements_of v with
+    | Some els => match first_err els with Some c => fail c true | None => ret els end
+    | None => fail CType false
+    end.
+
+  (** what the harness bodies do with their arguments / the harness with a result: force every
+      generator, depth first *)
+  Fixpoint deep_err (v : value) : option cause :=
+    match v with
+    | VErr c => Some c
+    | VT _ args =>
+        (fix go (l : list value) : option cause :=
+           match l with
+           | [] => None
+           | x :: l' => match deep_err x with Some c => Some c | None => go l' end
+           end) args
+    | _ => None
+    end.
+  Definition deep_err_list (l : list value) : option cause :=
+    (fix go (l : list value) : option cause :=
+       match l with
+       | [] => None
+       | x :: l' => match deep_err x with Some c => Some c | None => go l' end
+       end) l.
+
+  (** what a harness body sees: its arguments with every generator forced into a list *)
+  Fixpoint listify (v : value) : value :=
+    match v with
+    | VT t args =>
+        VT (if N.eqb t T_ITER then T_LIST else t)
+           ((fix go (l : list value) : list value :=
+               match l with [] => [] | x :: l' => listify x :: go l' end) args)
+    | _ => v
+    end.
+
+  (** what a stored generator looks like to every later reader: exhausted *)
+  Fixpoint exhaust (v : value) : value :=
+    match v with
+    | VT t args =>
+        if N.eqb t T_ITER then VT T_ITER []
+        else VT t ((fix go (l : list value) : list value :=
+                      match l with [] => [] | x :: l' => exhaust x :: go l' end) args)
+    | _ => v
+    end.
+  Fixpoint has_lazy (v : value) : bool :=
+    match v with
+    | VT t args =>
+        N.eqb t T_ITER ||
+        (fix go (l : list value) : bool := match l with [] => false | x :: l' => has_lazy x || go l' end) args
+    | _ => false
+    end.
+
   (** dict(iterable of pairs): later duplicates override, first position kept *)
   Fixpoint dict_put (k v : value) (d : list value) : list value :=
     match d with
@@ -239,21 +317,27 @@ Section Interp.
 
   Definition call_fun (f : N) (args : list value) : M value :=
     if N.eqb f B_LIST then
-      match args with [x] => match elements_of x with Some els => ret (VT T_LIST els) | None => fail CType false end
-                 | _ => fail CType false end
+      match args with [x] => els <- force_elems x ;; ret (VT T_LIST els) | _ => fail CType false end
     else if N.eqb f B_TUPLE then
-      match args with [x] => match elements_of x with Some els => ret (VT T_TUPLE els) | None => fail CType false end
-                 | _ => fail CType false end
+      match args with [x] => els <- force_elems x ;; ret (VT T_TUPLE els) | _ => fail CType false end
     else if N.eqb f B_DICT then
       match args with
-      | [x] => match elements_of x with
-               | Some ps => match dict_of_pairs ps [] with Some d => ret (VT T_DICT d) | None => fail CType false end
-               | None => fail CType false end
+      | [x] => ps <- force_elems x ;;
+               (* each pair is itself consumed *)
+               match first_err (flat_map (fun p => match elements_of p with Some l => l | None => [] end) ps) with
+               | Some c => fail c true
+               | None => match dict_of_pairs ps [] with Some d => ret (VT T_DICT d) | None => fail CType false end
+               end
       | _ => fail CType false end
     else
-      match ucall f args with
-      | COk v => emit (EvCall f args) ;;; ret v
-      | CRaise n => emit (EvCall f args) ;;; fail (CUser n) false
+      match deep_err_list args with
+      | Some c => fail c true          (* the body forces its arguments before doing anything *)
+      | None =>
+          let args' := map listify args in
+          match ucall f args' with
+          | COk v => emit (EvCall f args') ;;; ret v
+          | CRaise n => emit (EvCall f args') ;;; fail (CUser n) false
+          end
       end.
 
   (** [f(x)] for an evaluated callable [f]; compositions (evaluated pipelines) apply their
@@ -448,12 +532,10 @@ Section Interp.
     catch (k <- ev ;; ret (Some k))
           (fun c ee => if ee && has_default then ret None else fail c ee).
 
-  Definition is_some {A} (x : option A) : bool := match x with Some _ => true | None => false end.
 
   (** Map: the evaluated iterables and the option set of one combination *)
   Definition map_rows (ev : expr -> M value) (its : list (key * expr)) : M (list (list (key * value))) :=
-    vals <- mapM (fun kv => v <- ev (snd kv) ;;
-                            match elements_of v with Some els => ret els | None => fail CType false end) its ;;
+    vals <- mapM (fun kv => v <- ev (snd kv) ;; force_elems v) its ;;
     ret (map (fun combo => combine (map fst its) combo) (product vals)).
 
   Definition row_options (row : list (key * value)) : M dict :=
@@ -518,12 +600,30 @@ Section Interp.
                      (fun c ee => if ee then go ms' (Some (c, ee)) else fail c ee)
            end) ms None
     | EIter es =>
-        vs <- mapM (fun x => eval x o) es ;; ret (VT T_ITER vs)
+        (* a generator: an element's failure is deferred to the consumer and ends the iteration *)
+        vs <- (fix go (es : list expr) : M (list value) :=
+                 match es with
+                 | [] => ret []
+                 | x :: es' => catch (v <- eval x o ;;
+                                      (* an element that is itself lazy and will fail when consumed:
+                                         the consumer raises there, later elements never run *)
+                                      if is_some (deep_err v) then ret [v]
+                                      else vs <- go es' ;; ret (v :: vs))
+                                     (fun c _ => ret [VErr c])
+                 end) es ;;
+        ret (VT T_ITER vs)
     | EMap e its =>
         rows <- map_rows (fun x => eval x o) its ;;
-        rs <- mapM (fun row => os <- row_options row ;;
-                               r <- eval e (with_opts true os o) ;;
-                               ret (VT T_TUPLE [row_dict row; r])) rows ;;
+        rowsos <- mapM (fun row => os <- row_options row ;; ret (row, os)) rows ;;
+        rs <- (fix go (rows : list (list (key * value) * dict)) : M (list value) :=
+                 match rows with
+                 | [] => ret []
+                 | (row, os) :: rows' =>
+                     catch (r <- eval e (with_opts true os o) ;;
+                            if is_some (deep_err r) then ret [VT T_TUPLE [row_dict row; r]]
+                            else rs <- go rows' ;; ret (VT T_TUPLE [row_dict row; r] :: rs))
+                           (fun c _ => ret [VErr c])
+                 end) rowsos ;;
         ret (VT T_ITER rs)
     | EWith force p e => eval e (with_opts force p o)
     | ECached c e =>
@@ -532,12 +632,17 @@ Section Interp.
         | CMem cid =>
             if cfg.(cache_ctx_off) || cache_opt_off o then eval e o
             else
+              (if site_ok e o then ret tt else emit (EvDirty cid)) ;;;
               let fingerprint := (ks <- keys e o ;; fingerprint_of ks o) in
               let store_and_read_back (v : value) : M value :=
-                f <- fingerprint ;; put_store (mem_store cid f v) ;;; emit (EvCacheSet cid) ;;;
+                f <- fingerprint ;;
+                (* the cache keeps the very object: a generator in it is exhausted by its first
+                   consumer, which is the current caller (the read-back returns the same object) *)
+                put_store (mem_store cid f (exhaust v)) ;;; emit (EvCacheSet cid) ;;;
+                (if has_lazy v then emit (EvLazyStored cid) else ret tt) ;;;
                 f' <- fingerprint ;; s <- get_store ;;
                 match mem_find cid f' s with
-                | Some v' => emit (EvCacheGet cid true) ;;; ret v'
+                | Some _ => emit (EvCacheGet cid true) ;;; ret v
                 | None => emit (EvCacheGet cid false) ;;; ret v
                 end in
               f <- fingerprint ;; s <- get_store ;;
